@@ -1318,6 +1318,16 @@ class Interp:
                     continue
                 hook = getattr(d, "augassign", None)
                 s2 = hook(self, s, r.value, r.state, fr) if hook else None
+                if s2 is None and isinstance(s.target, (ast.Name, ast.Attribute)) and getattr(d, "heap", False):
+                    # x op= v on plain values is x = x op v
+                    load = ast.copy_location(ast.Name(id=s.target.id, ctx=ast.Load()) if isinstance(s.target, ast.Name) else ast.Attribute(value=s.target.value, attr=s.target.attr, ctx=ast.Load()), s.target)
+                    fake = ast.copy_location(ast.BinOp(left=load, op=s.op, right=s.value), s)
+                    for cur in self.eval(load, r.state, fr):
+                        if cur.kind == "exc":
+                            out.append(("raise", cur.value, cur.state))
+                        else:
+                            out.append(("next", None, self.assign(s.target, d.binop(fake, cur.value, r.value), cur.state, fr)))
+                    continue
                 if s2 is None:
                     s2 = self.assign(s.target, TOP, r.state, fr)
                 out.append(("next", None, s2))
